@@ -309,6 +309,13 @@ func (s *Server) publishDiagnosticsSeq(ctx context.Context, docURI protocol.Docu
 
 	settings := s.getSettings()
 	if !settings.Features.Diagnostics {
+		// like a real result, the empty list is published only by the latest
+		// analysis started for the document
+		s.publishMu.Lock()
+		defer s.publishMu.Unlock()
+		if s.analysisSeq[docURI] != seq {
+			return
+		}
 		_ = s.client.PublishDiagnostics(ctx, &protocol.PublishDiagnosticsParams{
 			URI:         docURI,
 			Diagnostics: []protocol.Diagnostic{},
